@@ -23,9 +23,10 @@ structure Inv (s : St N H) : Prop where
   nodupH : (dkeys s.haR).Nodup
   /-- no remote is indexed twice -/
   idsNodup : (ids s.uidR).Nodup
-  /-- the three indexes hold the same remotes, in the same iteration order -/
-  sameN : ids s.nameR = ids s.uidR
-  sameH : ids s.haR = ids s.uidR
+  /-- the three indexes hold the same remotes (each index has its own iteration order: a stack may be
+  constructed with caller-supplied index odicts that list the remotes differently) -/
+  sameN : (ids s.nameR).Perm (ids s.uidR)
+  sameH : (ids s.haR).Perm (ids s.uidR)
   /-- each under its current uid / name / host address -/
   curU : Cur Dev.uid s.devs s.uidR
   curN : Cur Dev.name s.devs s.nameR
@@ -110,8 +111,8 @@ theorem Inv.lookup {s : St N H} (h : Inv s) {r : Nat} {d : Dev N H} (hd : s.devs
     obtain ⟨x, h1, h2⟩ := hc p hp
     rw [hd] at h1; cases h1
     rw [h2]; exact dget_of_mem_nodup hn (by cases p; exact hp)
-  exact ⟨aux Dev.uid _ h.nodupU h.curU hr, aux Dev.name _ h.nodupN h.curN (h.sameN ▸ hr),
-    aux Dev.ha _ h.nodupH h.curH (h.sameH ▸ hr)⟩
+  exact ⟨aux Dev.uid _ h.nodupU h.curU hr, aux Dev.name _ h.nodupN h.curN (h.sameN.mem_iff.2 hr),
+    aux Dev.ha _ h.nodupH h.curH (h.sameH.mem_iff.2 hr)⟩
 
 theorem mem_ids_of_dget {K : Type} [DecidableEq K] {m : List (K × Nat)} {k : K} {r : Nat}
     (h : dget m k = some r) : r ∈ ids m := List.mem_map.2 ⟨(k, r), mem_of_dget h, rfl⟩
@@ -133,9 +134,9 @@ theorem removeOne_ok (dn : Nat → N) (dh : H) (nm : H → H) (di : H) {s : St N
   have i1 : ids (ddel s.uidR d.uid) = (ids s.uidR).erase r := by
     rw [e1]; exact ids_ddel a1 b1 d.uid r k1 (e1 ▸ h.idsNodup)
   have i2 : ids (ddel s.nameR d.name) = (ids s.nameR).erase r := by
-    rw [e2]; exact ids_ddel a2 b2 d.name r k2 (e2 ▸ h.sameN ▸ h.idsNodup)
+    rw [e2]; exact ids_ddel a2 b2 d.name r k2 (by rw [← e2]; exact h.sameN.nodup_iff.2 h.idsNodup)
   have i3 : ids (ddel s.haR d.ha) = (ids s.haR).erase r := by
-    rw [e3]; exact ids_ddel a3 b3 d.ha r k3 (e3 ▸ h.sameH ▸ h.idsNodup)
+    rw [e3]; exact ids_ddel a3 b3 d.ha r k3 (by rw [← e3]; exact h.sameH.nodup_iff.2 h.idsNodup)
   refine ⟨?_, ?_, i1⟩
   · have h2 : dhas s.nameR d.name = true := by simp [dhas, l2]
     have h3 : dhas s.haR d.ha = true := by simp [dhas, l3]
@@ -145,8 +146,8 @@ theorem removeOne_ok (dn : Nat → N) (dh : H) (nm : H → H) (di : H) {s : St N
       nodupN := nodup_dkeys_ddel _ h.nodupN
       nodupH := nodup_dkeys_ddel _ h.nodupH
       idsNodup := by show (ids (ddel s.uidR d.uid)).Nodup; rw [i1]; exact h.idsNodup.erase r
-      sameN := by show ids (ddel s.nameR d.name) = ids (ddel s.uidR d.uid); rw [i1, i2, h.sameN]
-      sameH := by show ids (ddel s.haR d.ha) = ids (ddel s.uidR d.uid); rw [i1, i3, h.sameH]
+      sameN := by show (ids (ddel s.nameR d.name)).Perm (ids (ddel s.uidR d.uid)); rw [i1, i2]; exact h.sameN.erase r
+      sameH := by show (ids (ddel s.haR d.ha)).Perm (ids (ddel s.uidR d.uid)); rw [i1, i3]; exact h.sameH.erase r
       curU := h.curU.sub (fun p hp => mem_ddel hp)
       curN := h.curN.sub (fun p hp => mem_ddel hp)
       curH := h.curH.sub (fun p hp => mem_ddel hp)
@@ -241,8 +242,8 @@ theorem C37_step_keeps_consistent (dn : Nat → N) (dh : H) (nm : H → H) (di :
           show (ids (s.uidR ++ [(d.uid, r)])).Nodup
           simp only [ids_append, ids_cons, ids_nil]
           exact List.nodup_append.2 ⟨h.idsNodup, by simp, by simp; exact fun x hx e => hr (e ▸ hx)⟩
-        sameN := by show ids (s.nameR ++ _) = ids (s.uidR ++ _); simp [h.sameN]
-        sameH := by show ids (s.haR ++ _) = ids (s.uidR ++ _); simp [h.sameH]
+        sameN := by show (ids (s.nameR ++ _)).Perm (ids (s.uidR ++ _)); simp only [ids_append]; exact h.sameN.append_right _
+        sameH := by show (ids (s.haR ++ _)).Perm (ids (s.uidR ++ _)); simp only [ids_append]; exact h.sameH.append_right _
         curU := cur Dev.uid _ h.curU
         curN := cur Dev.name _ h.curN
         curH := cur Dev.ha _ h.curH
@@ -285,8 +286,8 @@ theorem C37_step_keeps_consistent (dn : Nat → N) (dh : H) (nm : H → H) (di :
             nodupN := h.nodupN
             nodupH := h.nodupH
             idsNodup := by show (ids (rekey s.uidR d.uid new r')).Nodup; rw [hre, hids]; exact h.idsNodup
-            sameN := by show ids s.nameR = ids (rekey s.uidR d.uid new r'); rw [hre, hids]; exact h.sameN
-            sameH := by show ids s.haR = ids (rekey s.uidR d.uid new r'); rw [hre, hids]; exact h.sameH
+            sameN := by show (ids s.nameR).Perm (ids (rekey s.uidR d.uid new r')); rw [hre, hids]; exact h.sameN
+            sameH := by show (ids s.haR).Perm (ids (rekey s.uidR d.uid new r')); rw [hre, hids]; exact h.sameH
             curU := by
               show Cur Dev.uid (s.devs.set r' _) (rekey s.uidR d.uid new r')
               rw [hre]
@@ -329,13 +330,13 @@ theorem C37_step_keeps_consistent (dn : Nat → N) (dh : H) (nm : H → H) (di :
             nodupN := by show (dkeys (rekey s.nameR d.name new r')).Nodup; rw [hre]; exact hkeys.1
             nodupH := h.nodupH
             idsNodup := h.idsNodup
-            sameN := by show ids (rekey s.nameR d.name new r') = ids s.uidR; rw [hre, hids]; exact h.sameN
+            sameN := by show (ids (rekey s.nameR d.name new r')).Perm (ids s.uidR); rw [hre, hids]; exact h.sameN
             sameH := h.sameH
             curU := h.curU.set_other hd rfl
             curN := by
               show Cur Dev.name (s.devs.set r' _) (rekey s.nameR d.name new r')
               rw [hre]
-              exact Cur.set_rekey (e ▸ h.curN) (e ▸ h.sameN ▸ h.idsNodup) hd rfl
+              exact Cur.set_rekey (e ▸ h.curN) (by rw [← e]; exact h.sameN.nodup_iff.2 h.idsNodup) hd rfl
             curH := h.curH.set_other hd rfl
             locU := h.locU
             locN := by
@@ -374,13 +375,13 @@ theorem C37_step_keeps_consistent (dn : Nat → N) (dh : H) (nm : H → H) (di :
             nodupH := by show (dkeys (rekey s.haR d.ha new r')).Nodup; rw [hre]; exact hkeys.1
             idsNodup := h.idsNodup
             sameN := h.sameN
-            sameH := by show ids (rekey s.haR d.ha new r') = ids s.uidR; rw [hre, hids]; exact h.sameH
+            sameH := by show (ids (rekey s.haR d.ha new r')).Perm (ids s.uidR); rw [hre, hids]; exact h.sameH
             curU := h.curU.set_other hd rfl
             curN := h.curN.set_other hd rfl
             curH := by
               show Cur Dev.ha (s.devs.set r' _) (rekey s.haR d.ha new r')
               rw [hre]
-              exact Cur.set_rekey (e ▸ h.curH) (e ▸ h.sameH ▸ h.idsNodup) hd rfl
+              exact Cur.set_rekey (e ▸ h.curH) (by rw [← e]; exact h.sameH.nodup_iff.2 h.idsNodup) hd rfl
             locU := h.locU
             locN := h.locN
             locH := by
@@ -709,8 +710,8 @@ theorem C37_add_remove_effect (dn : Nat → N) (dh : H) (nm : H → H) (di : H) 
     have nil : ∀ {K : Type} (m : List (K × Nat)), ids m = [] → m = [] := by
       intro K m hm; cases m <;> simp_all [ids]
     have e1 := nil _ e0
-    have e2 := nil _ (t2.sameN.trans e0)
-    have e3 := nil _ (t2.sameH.trans e0)
+    have e2 := nil _ (e0 ▸ t2.sameN).eq_nil
+    have e3 := nil _ (e0 ▸ t2.sameH).eq_nil
     show (step.removeList s (ids s.uidR)).1 = _
     have eta : ∀ x : St N H, x = ⟨x.puid, x.loc, x.devs, x.uidR, x.nameR, x.haR⟩ := fun x => rfl
     rw [eta (step.removeList s (ids s.uidR)).1, t6, t5, t4, e1, e2, e3]
@@ -797,6 +798,17 @@ def opsE : List (Op Nat Nat) :=
    .create none none (some 9), .create (some 3) (some 1) (some 2), .add 1, .add 2, .move 1 3, .move 1 7,
    .remove 2, .reha 1 0, .remove 0]
 example : Inv s0 := (C37_init_consistent dnE 0 nmE 0 _ _ _ _).1
+/-- a stack constructed with caller-supplied indexes that list the three remotes in different orders
+(uid order 0,1,2; name order 2,0,1; ha order 1,2,0) is consistent, so every theorem above applies to it -/
+def sPre : St Nat Nat :=
+  initWith dnE 0 0 (some 1) none none [⟨10, 52, 93⟩, ⟨11, 53, 91⟩, ⟨12, 51, 92⟩]
+    [(10, 0), (11, 1), (12, 2)] [(51, 2), (52, 0), (53, 1)] [(91, 1), (92, 2), (93, 0)]
+example : Inv sPre := by
+  refine ⟨by decide, by decide, by decide, by decide, by decide, by decide, ?_, ?_, ?_, by decide, by decide, by decide⟩ <;>
+    (intro p hp; simp [sPre, initWith, init] at hp; rcases hp with rfl | rfl | rfl <;> simp [sPre, initWith, init])
+/-- renaming the remote that is first in name order and last in uid order keeps it first in name order -/
+example : (step dnE 0 nmE 0 sPre (.rename 2 50)).1.nameR = [(50, 2), (52, 0), (53, 1)] := by decide
+example : (step dnE 0 nmE 0 sPre (.reha 0 90)).1.haR = [(91, 1), (92, 2), (90, 0)] := by decide
 /-- Ip devices: the address is normalised when the device is created, not when it is re-addressed: two
 remotes created at 10 and 20 (both spellings of 1) cannot both be added; `reha` to 30 files the remote under 30 -/
 example : (run (step dnE 0 nmE 0) (initIp dnE nmE 0 0 none none (some 5))
